@@ -27,168 +27,14 @@ def _method(P, name):
 # ----------------------------------------------------------------------
 # R-IDXBOUND
 
-def _int_branch(fi):
-    """The `if isinstance(column, int):` statement of a positional-reference resolver."""
-    hits = [n for n in ast.walk(fi.node) if isinstance(n, ast.If) and isinstance(n.test, ast.Call)
-            and unparse(n.test.func) == 'isinstance' and len(n.test.args) == 2 and unparse(n.test.args[1]) == 'int']
-    if len(hits) != 1:
-        raise AnalysisError(f'{fi.fq}: positional reference branch `if isinstance(<column>, int)` not found')
-    return hits[0]
 
 
-def _visible_count_expr(fi, name, targets_param):
-    """Does `name` hold the number of *visible* targets?  -> (ok, why)"""
-    defs = [n for n in ast.walk(fi.node) if isinstance(n, ast.Assign) and len(n.targets) == 1
-            and unparse(n.targets[0]) == name]
-    if len(defs) != 1:
-        return None, f'`{name}` is not defined exactly once'
-    v = defs[0].value
-    src = unparse(v)
-    # len([t for t in targets if t.name is not None]) / sum(1 for ...) / sum(t.name is not None for t in targets)
-    comp = None
-    if isinstance(v, ast.Call) and unparse(v.func) == 'len' and v.args and isinstance(v.args[0], (ast.ListComp, ast.GeneratorExp)):
-        comp = v.args[0]
-        flt = comp.generators[0].ifs
-    elif isinstance(v, ast.Call) and unparse(v.func) == 'sum' and v.args and isinstance(v.args[0], (ast.ListComp, ast.GeneratorExp)):
-        comp = v.args[0]
-        flt = comp.generators[0].ifs or [comp.elt]
-    if comp is not None:
-        g = comp.generators[0]
-        if unparse(g.iter) != targets_param:
-            return False, f'`{name}` counts `{unparse(g.iter)}`, not the targets'
-        tv = unparse(g.target)
-        ok = any(unparse(f) in (f'{tv}.name is not None', f'{tv}.name') for f in flt)
-        return ok, '' if ok else f'`{name} = {src}` does not count the targets that have a name'
-    if isinstance(v, ast.Call) and unparse(v.func) == 'len' and v.args and isinstance(v.args[0], ast.Name):
-        inner = v.args[0].id
-        if inner == targets_param:
-            return False, (f'`{name} = {src}` counts all targets, including the invisible ones added for GROUP BY / ORDER BY / '
-                           f'HAVING, but positions are resolved among the visible columns')
-        idefs = [n for n in ast.walk(fi.node) if isinstance(n, ast.Assign) and len(n.targets) == 1
-                 and unparse(n.targets[0]) == inner]
-        if len(idefs) == 1 and isinstance(idefs[0].value, ast.DictComp):
-            return False, (f'`{name} = {src}` counts the entries of a name map: targets sharing a name are counted once, '
-                           f'so valid positions are rejected')
-        if len(idefs) == 1 and isinstance(idefs[0].value, ast.ListComp):
-            c = idefs[0].value
-            g = c.generators[0]
-            tv = unparse(g.target)
-            ok = unparse(g.iter) == targets_param and any(unparse(f) in (f'{tv}.name is not None', f'{tv}.name') for f in g.ifs)
-            return ok, '' if ok else f'`{inner}` is not the list of named targets'
-    return None, f'`{name} = {src}`: shape not understood'
 
 
-def rule_idxbound(P) -> RuleResult:
-    res = RuleResult('R-IDXBOUND')
-    sites = {
-        'GROUP BY': ('_compile_group_by', 'c_targets', 'all'),
-        'ORDER BY': ('_compile_order_by', 'c_targets', 'visible'),
-        'PIVOT BY': ('_compile_pivot_by', 'targets', 'visible'),
-    }
-    for clause, (meth, tparam_default, domain) in sites.items():
-        fi = _method(P, meth)
-        tparam = fi.params[2]
-        br = _int_branch(fi)
-        colvar = unparse(br.test.args[0])
-        construct = f'{fi.fq}:positional-reference'
-        # the bound name(s) used in the guard
-        guards = [n for n in br.body if isinstance(n, ast.If) and any(isinstance(x, ast.Raise) for x in n.body)]
-        if len(guards) != 1:
-            res.fail(construct, 'idxbound:guard', f'{clause}: positional references are not range-checked', loc(fi, br))
-            continue
-        g = guards[0]
-        rz = [x for x in g.body if isinstance(x, ast.Raise)][0]
-        exc = unparse(rz.exc.func) if isinstance(rz.exc, ast.Call) else unparse(rz.exc)
-        if exc != 'CompilationError':
-            res.fail(construct, 'idxbound:exc', f'{clause}: an out-of-range position raises {exc}', loc(fi, g))
-        names = {n.id for n in ast.walk(g.test) if isinstance(n, ast.Name)} - {colvar}
-        # execute the branch for N = 3 and positions 0, 1, 3, 4
-        N = 3
-        idxvar = None
-        for n in br.body:
-            if isinstance(n, ast.Assign) and isinstance(n.targets[0], ast.Name) and colvar in unparse(n.value):
-                idxvar = n.targets[0].id
-        if idxvar is None:
-            raise AnalysisError(f'{fi.fq}: index computation not found')
-        bound_names = names - {idxvar}
-        ok = True
-        for pos, want in ((0, 'raise'), (1, 0), (N, N - 1), (N + 1, 'raise'), (-1, 'raise')):
-            def callh(e, st, m):
-                if unparse(e.func) == 'len':
-                    return N
-                return finite.Sym(unparse(e))
-            env = {b: N for b in bound_names}
-            env[colvar] = pos
-            mach = finite.Machine(call=callh, isinstance_=lambda v, c: True, names=env,
-                                  expr=lambda e, st, m: finite.Sym(unparse(e)))
-            try:
-                body = [s for s in br.body if not isinstance(s, (ast.Continue,))]
-                # stop after the guard
-                gi = body.index(g)
-                st = mach.run(body[:gi + 1], {})
-                got = st.get(idxvar)
-            except finite.Return as r:
-                got = 'raise' if isinstance(r.value, tuple) and r.value and r.value[0] == 'raise' else r.value
-            if got != want:
-                ok = False
-                res.fail(construct, f'idxbound:range:{pos}',
-                         f'{clause} position {pos} with {N} referable targets: {"rejected" if got == "raise" else f"resolved to index {got}"}, '
-                         f'expected {"rejection" if want == "raise" else f"index {want}"} (positions are 1-based, valid range 1..n)',
-                         loc(fi, g))
-                break
-        # the domain of the bound
-        bexprs = [n for n in ast.walk(g.test) if isinstance(n, ast.Call) and unparse(n.func) == 'len']
-        if domain == 'all':
-            good = any(unparse(b) == f'len({tparam})' for b in bexprs)
-            if not good:
-                ok2, why = (None, 'bound is not len(targets)')
-                for b in bound_names:
-                    ok2, why = _visible_count_expr(fi, b, tparam)
-                if ok2 is not True:
-                    res.fail(construct, 'idxbound:domain', f'{clause}: {why}', loc(fi, g))
-                    ok = False
-        else:
-            if any(unparse(b) == f'len({tparam})' for b in bexprs):
-                res.fail(construct, 'idxbound:domain',
-                         f'{clause}: positions are validated against all targets including the invisible ones added for '
-                         f'GROUP BY / ORDER BY / HAVING, but they are resolved among the visible columns', loc(fi, g))
-                ok = False
-            else:
-                for b in bound_names:
-                    ok2, why = _visible_count_expr(fi, b, tparam)
-                    if ok2 is None:
-                        raise AnalysisError(f'{fi.fq}: {why}')
-                    if not ok2:
-                        res.fail(construct, 'idxbound:domain', f'{clause}: {why}', loc(fi, g))
-                        ok = False
-        if ok:
-            res.ok({'clause': clause, 'function': fi.fq, 'positions_tested': [0, 1, N, N + 1, -1], 'domain': domain})
-    groupby_order_part(P, res)
-    return res
 
 
-def groupby_order_part(P, res):
-    # GROUP BY is resolved before any invisible target exists
-    sel = _select_method(P)
-    calls = [n for n in ast.walk(sel.node) if isinstance(n, ast.Call) and unparse(n.func) == 'self._compile_group_by']
-    tdefs = [n for n in sel.node.body if isinstance(n, ast.Assign) and isinstance(n.value, ast.Call)
-             and unparse(n.value.func) == 'self._compile_targets']
-    if len(calls) == 1 and len(tdefs) == 1 and len(calls[0].args) == 2:
-        tv = unparse(tdefs[0].targets[0])
-        ext = [n for n in ast.walk(sel.node) if isinstance(n, ast.Call) and isinstance(n.func, ast.Attribute)
-               and unparse(n.func.value) == tv and n.func.attr in ('extend', 'append', 'insert') and n.lineno < calls[0].lineno]
-        if unparse(calls[0].args[1]) != tv or ext:
-            res.fail(f'{sel.fq}:group-by-call', 'idxbound:order', 'GROUP BY positions are resolved after invisible targets were '
-                     'added to the targets list', loc(sel, calls[0]))
-        else:
-            res.ok({'clause': 'GROUP BY', 'resolved_on': 'targets of the SELECT list only'})
-    else:
-        raise AnalysisError(f'{sel.fq}: call of _compile_group_by not understood')
 
 
-def _select_method(P):
-    from .executor import _select_compiler
-    return _select_compiler(P)
 
 
 # ----------------------------------------------------------------------
@@ -410,89 +256,10 @@ def _visfilter_subquery(P, res):
 # ----------------------------------------------------------------------
 # R-TARGETCHK (C05)
 
-def _checks_aggregates(fn_node, var):
-    """Does this function body reject, for expression `var`, mixed aggregates/columns and nested aggregates?"""
-    mixed = nested = False
-    cols = aggs = None
-    for n in ast.walk(fn_node):
-        if isinstance(n, ast.Assign) and isinstance(n.value, ast.Call) and unparse(n.value.func) == 'get_columns_and_aggregates' \
-                and [unparse(a) for a in n.value.args] == [var] and isinstance(n.targets[0], ast.Tuple) and len(n.targets[0].elts) == 2:
-            cols, aggs = (unparse(x) for x in n.targets[0].elts)
-    if cols is None:
-        return False, False
-    for n in ast.walk(fn_node):
-        if isinstance(n, ast.If) and any(isinstance(x, ast.Raise) for x in n.body):
-            t = n.test
-            if isinstance(t, ast.BoolOp) and isinstance(t.op, ast.And) and {unparse(v) for v in t.values} == {cols, aggs}:
-                mixed = True
-            if isinstance(t, ast.Call) and unparse(t.func) == 'is_aggregate':
-                # inside loops over the aggregates' child nodes
-                nested = nested or _inside_child_loop(fn_node, n, aggs)
-    return mixed, nested
 
 
-def _inside_child_loop(fn_node, target, aggs):
-    for outer in ast.walk(fn_node):
-        if isinstance(outer, ast.For) and unparse(outer.iter) == aggs:
-            for inner in ast.walk(outer):
-                if isinstance(inner, ast.For) and 'childnodes()' in unparse(inner.iter) and any(x is target for x in ast.walk(inner)):
-                    return True
-    return False
 
 
-def rule_targetchk(P) -> RuleResult:
-    """Every site that wraps an expression into a target must rule out mixed / nested aggregates."""
-    res = RuleResult('R-TARGETCHK')
-    m = P.module(CO)
-    # functions of the module that perform both checks on their (last) parameter
-    checkers = {}
-    for fi in m.functions.values():
-        for p in fi.params:
-            if p == 'self':
-                continue
-            mx, ns = _checks_aggregates(fi.node, p)
-            if mx and ns:
-                checkers[fi.name] = fi
-    nsites = 0
-    for fi in m.functions.values():
-        for n in ast.walk(fi.node):
-            if not (isinstance(n, ast.Call) and unparse(n.func) == 'EvalTarget' and len(n.args) == 3):
-                continue
-            nsites += 1
-            var = unparse(n.args[0])
-            clause = {'_compile_targets': 'SELECT', '_compile_order_by': 'ORDER BY'}.get(fi.name)
-            if clause is None:
-                clause = 'HAVING' if unparse(n.args[2]) == 'True' else 'GROUP BY'
-            construct = f'{fi.fq}:EvalTarget[{clause}]'
-            # the innermost statement list that holds the site: checks must be in the same function on the same variable
-            inline = _checks_aggregates(fi.node, var)
-            called = [c for c in ast.walk(fi.node) if isinstance(c, ast.Call) and unparse(c.func).split('.')[-1] in checkers
-                      and [unparse(a) for a in c.args] == [var]]
-            if clause == 'HAVING':
-                # the HAVING expression variable is re-used: only calls after the HAVING compile count
-                hv = [x for x in ast.walk(fi.node) if isinstance(x, ast.Assign) and unparse(x.targets[0]) == var
-                      and 'having' in unparse(x.value)]
-                if hv:
-                    called = [c for c in called if c.lineno > hv[0].lineno]
-                    inline = (False, False)
-            elif clause == 'GROUP BY':
-                hv = [x for x in ast.walk(fi.node) if isinstance(x, ast.Assign) and unparse(x.targets[0]) == var
-                      and 'having' in unparse(x.value)]
-                if hv:
-                    called = [c for c in called if c.lineno < hv[0].lineno]
-            rejects_all = any(isinstance(x, ast.If) and any(isinstance(r, ast.Raise) for r in x.body)
-                              and unparse(x.test) in (f'is_aggregate({var})', 'aggregate')
-                              for x in ast.walk(fi.node)) if clause == 'GROUP BY' else False
-            if all(inline) or called or rejects_all:
-                res.ok({'site': construct, 'rule': 'aggregates rejected' if rejects_all else 'mixed and nested aggregates rejected'})
-            else:
-                res.fail(construct, 'targetchk:unchecked',
-                         f'{clause} expressions become targets without '
-                         + ('being rejected when they are aggregates' if clause == 'GROUP BY' else
-                            'the mixed-aggregate and aggregate-of-aggregate checks'), loc(fi, n))
-    if nsites < 4:
-        raise AnalysisError(f'only {nsites} EvalTarget sites found')
-    return res
 
 
 # ----------------------------------------------------------------------
@@ -625,115 +392,10 @@ def rule_exctree(P) -> RuleResult:
 # ----------------------------------------------------------------------
 # R-GUARDS (C05): the census of acceptance rules
 
-def _features(test):
-    out = set()
-    if isinstance(test, ast.UnaryOp) and isinstance(test.op, ast.Not):
-        out.add('not')
-    for n in ast.walk(test):
-        if isinstance(n, ast.Call):
-            f = n.func
-            out.add('call:' + (f.attr if isinstance(f, ast.Attribute) else f.id if isinstance(f, ast.Name) else '?'))
-        elif isinstance(n, ast.Attribute):
-            out.add('attr:' + n.attr)
-        elif isinstance(n, ast.Compare):
-            for op in n.ops:
-                out.add('cmp:' + type(op).__name__)
-        elif isinstance(n, ast.Name):
-            out.add('name:' + n.id)
-        elif isinstance(n, ast.UnaryOp) and isinstance(n.op, ast.Not):
-            out.add('not')
-    return out
 
 
-def _raise_class(P, module, st):
-    for x in st:
-        if isinstance(x, ast.Raise) and x.exc is not None:
-            e = x.exc.func if isinstance(x.exc, ast.Call) else x.exc
-            return unparse(e)
-    return None
 
 
-def rule_guards(P) -> RuleResult:
-    res = RuleResult('R-GUARDS')
-    with open(os.path.join(VERIF, 'tables', 'guards.json'), encoding='utf-8') as f:
-        rows = json.load(f)
-    m = P.module(CO)
-    for row in rows:
-        cands = []
-        if row['func'] == '*':
-            cands = [fi for fi in m.functions.values() if fi.qualname.startswith('Compiler.')]
-        else:
-            for name in (row['func'], row.get('alt_func')):
-                if name and name in m.functions:
-                    cands.append(m.functions[name])
-        if not cands:
-            raise AnalysisError(f'anchor vanished: {row["func"]} (guard {row["id"]})')
-        found = None
-        # the guard may live in a helper of the named function: the named function first, then the functions it calls
-        if row['func'] != '*':
-            seen = {id(c) for c in cands}
-            work = list(cands)
-            while work:
-                f0 = work.pop()
-                for n in ast.walk(f0.node):
-                    if isinstance(n, ast.Call) and isinstance(n.func, ast.Attribute) and isinstance(n.func.value, ast.Name) \
-                            and n.func.value.id == 'self' and f'Compiler.{n.func.attr}' in m.functions:
-                        g = m.functions[f'Compiler.{n.func.attr}']
-                        if id(g) not in seen and not any('register' in unparse(d) for d in g.node.decorator_list) \
-                                and g.name not in ('_compile',):
-                            seen.add(id(g))
-                            cands.append(g)
-                            work.append(g)
-        for fi in cands:
-            if row['kind'] == 'if-raise':
-                for n in ast.walk(fi.node):
-                    if isinstance(n, ast.If):
-                        exc = _raise_class(P, m, n.body)
-                        if exc is None:
-                            continue
-                        feats = _features(n.test)
-                        needs = [row['need']] + ([row['alt_need']] if 'alt_need' in row else [])
-                        if any(set(nd) <= feats for nd in needs):
-                            found = (fi, n, exc)
-                            break
-            elif row['kind'] == 'final-raise':
-                body = body_without_docstring(fi.node)
-                if body and isinstance(body[-1], ast.Raise) and body[-1].exc is not None:
-                    e = body[-1].exc.func if isinstance(body[-1].exc, ast.Call) else body[-1].exc
-                    # there must be a guarded successful return before it
-                    if any(isinstance(x, ast.Return) for x in ast.walk(fi.node)):
-                        found = (fi, body[-1], unparse(e))
-            elif row['kind'] == 'else-raise':
-                for n in ast.walk(fi.node):
-                    if isinstance(n, ast.If) and n.orelse:
-                        last = n
-                        while len(last.orelse) == 1 and isinstance(last.orelse[0], ast.If):
-                            last = last.orelse[0]
-                        exc = _raise_class(P, m, last.orelse)
-                        if exc and 'all(' in unparse(n.test) or (exc and 'any(' in unparse(last.test)):
-                            found = (fi, last, exc)
-            if found:
-                break
-        construct = f'{CO}:{row["func"]}:guard[{row["id"]}]'
-        if not found:
-            res.fail(construct, 'guards:missing', f'acceptance rule "{row["clause"]}" has no guard in {row["func"]} '
-                     f'(an `if` testing {", ".join(row["need"]) or "the resolution result"} that raises)', loc(cands[0]))
-            continue
-        fi, node, exc = found
-        if not _exc_family(P, m, exc):
-            res.fail(construct, 'guards:class', f'the guard for "{row["clause"]}" raises {exc}, not a ProgrammingError', loc(fi, node))
-        else:
-            res.ok({'guard': row['id'], 'function': fi.fq, 'clause': row['clause'], 'raises': exc})
-    # semantic spot checks of polarity, executed over the finite domain ------------------------------
-    # OPEN > CLOSE strict: equal dates are accepted
-    fi = m.functions.get('Compiler._compile_from')
-    for n in ast.walk(fi.node):
-        if isinstance(n, ast.If) and {'attr:open', 'attr:close', 'cmp:Gt'} <= _features(n.test) and _raise_class(P, m, n.body):
-            cmps = [c for c in ast.walk(n.test) if isinstance(c, ast.Compare) and isinstance(c.ops[0], ast.Gt)]
-            if cmps and not (unparse(cmps[0].left).endswith('.open') and unparse(cmps[0].comparators[0]).endswith('.close')):
-                res.fail(f'{fi.fq}:guard[open-close-order]', 'guards:polarity', 'the date order test must reject OPEN > CLOSE; found '
-                         f'`{unparse(cmps[0])}`', loc(fi, n))
-    return res
 
 
 # ----------------------------------------------------------------------
@@ -888,34 +550,6 @@ def rule_guard_typesafe(P) -> RuleResult:
 # ----------------------------------------------------------------------
 # R-OPRESOLVE (C04, C05): every operator handler selects its evaluator by the operand dtypes
 
-def rule_opresolve(P) -> RuleResult:
-    res = RuleResult('R-OPRESOLVE')
-    m = P.module(CO)
-    handlers = []
-    for fi in m.functions.values():
-        if not fi.qualname.startswith('Compiler.') or fi.qualname.count('.') != 1:
-            continue
-        regs = [unparse(d) for d in fi.node.decorator_list if unparse(d).startswith('_compile.register')]
-        if not regs:
-            continue
-        ann = unparse(fi.node.args.args[1].annotation) if len(fi.node.args.args) > 1 and fi.node.args.args[1].annotation else ''
-        keys = ' '.join(regs) + ' ' + ann
-        if re.search(r'ast\.(UnaryOp|BinaryOp|Between|In|NotIn)\b', keys):
-            handlers.append(fi)
-    if len(handlers) < 4:
-        raise AnalysisError(f'only {len(handlers)} operator handlers found')
-    for fi in handlers:
-        src = unparse(fi.node)
-        looks_up = 'function_lookup(OPERATORS' in src or '__intypes__' in src
-        rejects = any(isinstance(n, ast.Raise) and n.exc is not None and 'CompilationError' in unparse(n.exc) and 'operator' in unparse(n.exc)
-                      for n in ast.walk(fi.node))
-        if looks_up and rejects:
-            res.ok({'handler': fi.fq, 'resolution': 'by operand dtypes, CompilationError otherwise'})
-        else:
-            res.fail(fi.fq, 'opresolve:unchecked',
-                     f'{fi.qualname} builds the operator node without matching the operand dtypes against the registered '
-                     f'overloads: ill-typed operands are accepted and fail during execution', loc(fi))
-    return res
 
 
 # ----------------------------------------------------------------------
@@ -947,11 +581,16 @@ def rule_wildcard(P) -> RuleResult:
             else:
                 res.ok({'table': ci.name, 'wildcard': names})
         elif isinstance(meth, FuncInfo):
-            src = unparse(meth.node)
-            if 'self.columns' in src:
-                res.ok({'table': ci.name, 'wildcard': 'derived from self.columns'})
-            else:
-                res.fail(f'{ci.fq}.wildcard_columns', 'wildcard:source', 'the wildcard list is not derived from the table columns', loc(meth))
+            from ..symex import Sym as _S0, SList as _SL0, Engine as _E0, Exec as _X0
+            TBL0 = _S0('TABLE')
+            model0 = _SL0([('x', _S0('COL_x')), ('meta', _S0('COL_meta')), ('y', _S0('COL_y'))], kind='dict')
+            for p_ in _E0(P, on_attr=lambda b, a, ex: model0 if (b, a) == (TBL0, 'columns') else NotImplemented).paths(meth, {'self': TBL0}):
+                names0 = _X0(_E0(P), []).iterate(p_.value)
+                if names0 is None or not set(names0) <= {'x', 'meta', 'y'} or not names0:
+                    res.fail(f'{ci.fq}.wildcard_columns', 'wildcard:source', f'the wildcard list is not derived from the table columns: with '
+                             f'columns x, meta, y it is {names0 if names0 is not None else p_.value!r}', loc(meth))
+                else:
+                    res.ok({'table': ci.name, 'wildcard': f'derived from self.columns: {names0}'})
         else:
             raise AnalysisError(f'{ci.fq}: wildcard_columns not found')
     # subquery tables and user tables (the base Table's property): `*` is every column, in order - a subquery column may
@@ -976,10 +615,49 @@ def rule_wildcard(P) -> RuleResult:
                 res.ok({'table': label, 'wildcard': 'every column, in order'})
     # expansion site
     ct = _method(P, '_compile_targets')
-    if 'self.table.wildcard_columns' not in unparse(ct.node):
-        res.fail(ct.fq, 'wildcard:expansion', '`*` is not expanded from the wildcard column list of the current table', loc(ct))
-    else:
-        res.ok({'site': ct.fq, 'expands': 'self.table.wildcard_columns'})
+    COMP, STAR = _S('COMPILER'), _S('ASTERISK')
+    compiled = []
+
+    def on_attr_x(base, attr, ex):
+        if base == _T('attr', (COMP, 'table')) and attr == 'wildcard_columns':
+            return _SL(['first', 'second', 'third'])
+        if isinstance(base, _T) and base.op == 'new' and base.args[0] == 'Target' and attr in ('expression', 'name'):
+            pos = dict(base.args[2])
+            i = 0 if attr == 'expression' else 1
+            return pos[attr] if attr in pos else (base.args[1][i] if len(base.args[1]) > i else None)
+        return NotImplemented
+
+    def on_isinstance_x(v, c, ex):
+        from ..symex import gname as _gn
+        if v == STAR:
+            return _gn(c).endswith('Asterisk')
+        return False
+
+    def on_call_x(fn, fv, rc, args, kw, ex, node):
+        last = str(fn).split('.')[-1]
+        if last in ('Target', 'Column'):
+            return _T('new', (last, tuple(args), tuple(kw)))
+        if last == '_compile':
+            compiled.append(args[0] if args else None)
+            return _S(f'C_EXPR{len(compiled)}')
+        if last in ('get_target_name',):
+            return 'name'
+        if last in ('is_aggregate',):
+            return False
+        if last == '_check_aggregates':
+            return None
+        if last == 'EvalTarget':
+            return _T('new', ('EvalTarget', tuple(args)))
+        return NotImplemented
+    for p_ in _E(P, on_attr=on_attr_x, on_isinstance=on_isinstance_x, on_call=on_call_x).paths(ct, {'self': COMP, ct.params[1]: STAR}):
+        want = [_T('new', ('Column', (n_,), ())) for n_ in ('first', 'second', 'third')]
+        got = [c for c in compiled]
+        compiled.clear()
+        if got != want or p_.outcome != 'return' or not (isinstance(p_.value, _SL) and len(p_.value.items) == 3):
+            res.fail(ct.fq, 'wildcard:expansion', f'`*` must expand to one target per name of the wildcard column list of the current table, '
+                     f'in order; with the list first, second, third it compiles {[repr(c)[:40] for c in got]}', loc(ct))
+        else:
+            res.ok({'site': ct.fq, 'expands': 'self.table.wildcard_columns, one column target per name, in order'})
     return res
 
 
@@ -1164,174 +842,8 @@ def rule_foldsafe(P) -> RuleResult:
 # ----------------------------------------------------------------------
 # R-IMPLICITCAST (C01, C04): untyped operands of a binary operator are cast to the type of the other side
 
-def rule_implicitcast(P) -> RuleResult:
-    import decimal as _dec
-    res = RuleResult('R-IMPLICITCAST')
-    reg = registry.get(P)
-    fi = _method(P, '_binaryop')
-    blocks = []
-    for n in ast.walk(fi.node):
-        if isinstance(n, ast.If) and isinstance(n.test, ast.BoolOp) and isinstance(n.test.op, ast.And) and len(n.test.values) == 2:
-            a, b = (unparse(v) for v in n.test.values)
-            mm = re.fullmatch(r'(\w+)\.dtype is object', a)
-            nn = re.fullmatch(r'(\w+)\.dtype is not object', b)
-            if mm and nn and mm.group(1) != nn.group(1):
-                blocks.append((mm.group(1), nn.group(1), n))
-    if len(blocks) != 2:
-        raise AnalysisError(f'{fi.fq}: the two implicit-cast branches (untyped left / untyped right) not found')
-    (u1, t1, b1), (u2, t2, b2) = blocks
-    if {u1, u2} != {t1, t2}:
-        raise AnalysisError(f'{fi.fq}: implicit-cast branches do not mirror each other')
-    # (1) sibling symmetry: swapping the operand names turns one branch into the other
-    def swapped(node):
-        src = unparse(node)
-        return re.sub(r'\b(%s|%s)\b' % (u1, u2), lambda m: u2 if m.group(1) == u1 else u1, src)
-    if swapped(b1) != unparse(b2):
-        res.fail(f'{fi.fq}:implicit-cast', 'implicitcast:asymmetric',
-                 f'the branch casting an untyped {u1} operand and the one casting an untyped {u2} operand are not mirror images: '
-                 f'an expression and its mirrored form get different casts', loc(fi, b1))
-    else:
-        res.ok({'site': fi.fq, 'branches': 'mirror images'})
-    # (2) which cast is chosen for each type of the typed side
-    names = {'int': int, 'Decimal': _dec.Decimal, 'object': object}
-    for untyped, typed, blk in blocks:
-        for t in list(reg.types_map) + [dict]:
-            casts = []
-
-            def exprh(e, st, m, _t=t, _typed=typed, _untyped=untyped):
-                s = unparse(e)
-                if s == f'{_typed}.dtype':
-                    return _t
-                if s == f'{_untyped}.dtype':
-                    return object
-                return finite.Sym(s)
-
-            def callh(e, st, m, _casts=casts):
-                s = unparse(e.func)
-                if s == 'types.MAP.get' and len(e.args) == 1:
-                    return reg.types_map.get(m.ev(e.args[0], st))
-                if s.startswith('types.function_lookup(FUNCTIONS'):
-                    inner = e.func
-                    _casts.append(m.ev(inner.args[1], st))
-                    return finite.Sym('CAST')
-                if s == 'types.function_lookup' and len(e.args) >= 2:
-                    return ('LOOKUP', m.ev(e.args[1], st))
-                if isinstance(e.func, ast.Name) and e.func.id in st and isinstance(st[e.func.id], tuple) \
-                        and st[e.func.id] and st[e.func.id][0] == 'LOOKUP':
-                    _casts.append(st[e.func.id][1])
-                    return finite.Sym('CAST')
-                return finite.Sym(s)
-            def subh(e, st, m):
-                if unparse(e.value) == 'types.MAP':
-                    k = m.ev(e.slice, st)
-                    if k not in reg.types_map:
-                        raise KeyError(k)
-                    return reg.types_map[k]
-                return finite.Sym(unparse(e))
-            mach = finite.Machine(expr=exprh, call=callh, subscript=subh,
-                                  names=dict(names, **{untyped: finite.Sym(untyped), typed: finite.Sym(typed)}))
-            outcome = 'fallthrough'
-            try:
-                mach.run(blk.body, {})
-            except KeyError:
-                outcome = 'KeyError'
-            except finite.Break:
-                outcome = 'break'
-            except finite.Continue:
-                outcome = 'continue'
-            except finite.Return:
-                outcome = 'return'
-            want_t = _dec.Decimal if t is int else t
-            want = reg.types_map.get(want_t)
-            label = f'untyped {untyped} with {t.__name__} on the other side'
-            if outcome == 'KeyError':
-                res.fail(f'{fi.fq}:implicit-cast', f'implicitcast:{untyped}:{t.__name__}:KeyError',
-                         f'{label}: the cast lookup raises KeyError instead of rejecting the operator with a CompilationError',
-                         loc(fi, blk))
-            elif want is None:
-                if outcome != 'break' or casts:
-                    res.fail(f'{fi.fq}:implicit-cast', f'implicitcast:{untyped}:{t.__name__}',
-                             f'{label}: there is no cast to {t.__name__}; the operator must be rejected, got {outcome} {casts}', loc(fi, blk))
-                else:
-                    res.ok({'case': label, 'outcome': 'rejected'})
-            elif casts != [want] or outcome != 'continue':
-                res.fail(f'{fi.fq}:implicit-cast', f'implicitcast:{untyped}:{t.__name__}',
-                         f'{label}: the untyped operand must be cast with {want}() '
-                         + ('(untyped numbers are decimals: casting to int would lose information) ' if t is int else '')
-                         + f'and resolution retried; got casts {casts}, {outcome}', loc(fi, blk))
-            else:
-                res.ok({'case': label, 'cast': want})
-    return res
 
 
 # ----------------------------------------------------------------------
 # R-COALESCE (C04): COALESCE announces the type of its first argument, so all arguments must have that type
 
-def rule_coalesce(P) -> RuleResult:
-    import datetime as _dt
-    import decimal as _dec
-    res = RuleResult('R-COALESCE')
-    res.exhaustive = True
-    fi = _method(P, '_function')
-    blk = None
-    for n in ast.walk(fi.node):
-        if isinstance(n, ast.If) and 'coalesce' in unparse(n.test) and 'fname' in unparse(n.test):
-            blk = n
-    if blk is None:
-        raise AnalysisError(f'{fi.fq}: the COALESCE branch not found')
-    # what EvalCoalesce announces
-    ec = P.cls(QC, 'EvalCoalesce')
-    init = ec.methods.get('__init__')
-    if init is None or 'args[0].dtype' not in unparse(init.node):
-        raise AnalysisError('EvalCoalesce no longer announces the type of its first argument: rule not applicable as written')
-    loops = [n for n in blk.body if isinstance(n, ast.For)]
-    if len(loops) != 1 or not isinstance(loops[0].target, ast.Name):
-        res.fail(f'{fi.fq}:coalesce', 'coalesce:unchecked', 'COALESCE arguments are not checked for a uniform type', loc(fi, blk))
-        return res
-    lp = loops[0]
-    ov = lp.target.id
-    seq = unparse(lp.iter)
-    types_ = [str, int, bool, _dec.Decimal, _dt.date, object]
-    ok = True
-    n = 0
-    for first in types_:
-        for other in types_:
-            n += 1
-
-            def exprh(e, st, m, _f=first, _o=other):
-                s = unparse(e)
-                if s == f'{ov}.dtype':
-                    return _o
-                if s == f'{seq}[0].dtype':
-                    return _f
-                return finite.Sym(s)
-
-            def callh(e, st, m):
-                s = unparse(e.func)
-                if s == 'issubclass' and len(e.args) == 2:
-                    a, b = (m.ev(x, st) for x in e.args)
-                    return issubclass(a, b)
-                return finite.Sym(s)
-            mach = finite.Machine(expr=exprh, call=callh, names={ov: finite.Sym(ov), seq: finite.Sym(seq), 'node': finite.Sym('node')})
-            mach.comprehensions = True
-            raised = False
-            try:
-                st0 = mach.run(blk.body[:blk.body.index(lp)], {})
-                mach.run(lp.body, st0)
-            except finite.Return as r:
-                raised = isinstance(r.value, tuple) and r.value and r.value[0] == 'raise'
-            except (finite.Continue, finite.Break):
-                pass
-            want = first is not other
-            if raised != want:
-                ok = False
-                res.fail(f'{fi.fq}:coalesce', f'coalesce:{first.__name__}:{other.__name__}',
-                         f'coalesce(<{first.__name__}>, <{other.__name__}>) is {"rejected" if raised else "accepted"}; the result is '
-                         f'announced as {first.__name__}, so an argument of type {other.__name__} must be '
-                         f'{"accepted" if not want else "rejected"}', loc(fi, lp))
-                break
-        if not ok:
-            break
-    if ok:
-        res.ok({'site': fi.fq, 'type_pairs_executed': n, 'accepts': 'only arguments of the first argument\'s type'})
-    return res
